@@ -86,6 +86,13 @@ class Monitor:
                                 f'mup={ctx["mup"]} -> AST={ast} publishTime={pub} TSBD={t.timeShiftBufferDepth} '
                                 f'elapsed={t.elapsedTime} first={t.firstAvailableTime} [{self.layer}]',
                           {'timing_case': ctx})
+        def start_class() -> str:
+            # the recorded finding is about a REQUESTED explicit start with a fractional second; a
+            # symbolic start (now, today, ...) must resolve to a whole second whatever the clock says
+            if symbolic or start_opt is None:
+                return 'symbolic-start-resolved-to-fraction' if ast.microsecond else 'whole-start'
+            return 'fractional-start' if getattr(start_opt, 'microsecond', 0) else 'whole-start'
+
         if ast is None:
             bad('live-timing-without-availability-start', 'availabilityStartTime is None')
             return
@@ -96,8 +103,7 @@ class Monitor:
         if pub > now:
             bad('publish-time-after-now', 'publishTime > now')
         if pub < ast:
-            frac = 'fractional-start' if ast.microsecond else 'whole-start'
-            bad(f'publish-time-before-availability-start-{frac}', 'publishTime < availabilityStartTime')
+            bad(f'publish-time-before-availability-start-{start_class()}', 'publishTime < availabilityStartTime')
         elapsed = now - ast
         tsbd = t.timeShiftBufferDepth
         if not isinstance(tsbd, int) or tsbd < 0:
@@ -119,8 +125,7 @@ class Monitor:
             else:
                 off = td_fraction(pub - ast)
                 if off % p != 0:
-                    frac = 'fractional-start' if ast.microsecond else 'whole-start'
-                    bad(f'publish-time-not-on-update-period-grid-{frac}',
+                    bad(f'publish-time-not-on-update-period-grid-{start_class()}',
                         f'(publishTime - AST) = {float(off)} s is not a multiple of {p}')
                 if td_fraction(now - pub) >= p + 1:
                     bad('publish-time-lags-too-far', f'now - publishTime = {float(td_fraction(now - pub))} >= {p} + 1')
